@@ -262,3 +262,85 @@ impl Net {
         Fate::Sent(out)
     }
 }
+
+// ---------------------------------------------------------------------------
+// Nodes on their own OS threads
+
+type Job = Box<dyn FnOnce() + Send>;
+
+/// One real OS thread per simulated node, released for exactly one callback at a time: the
+/// simulator still decides who runs and when (the caller blocks until the callback has finished),
+/// so executions stay exactly repeatable, but state the code under test keeps per THREAD
+/// (thread-locals, per-thread generators or caches) is now per NODE, as it is for parties that
+/// really are separate processes or threads.
+pub struct NodeThreads {
+    workers: BTreeMap<NodeId, (std::sync::mpsc::Sender<Job>, Option<std::thread::JoinHandle<()>>)>,
+}
+
+impl Default for NodeThreads {
+    fn default() -> Self {
+        NodeThreads { workers: BTreeMap::new() }
+    }
+}
+
+impl NodeThreads {
+    /// Run `f` on node `node`'s thread with `entropy` answering its OS-entropy draws.
+    pub fn run<R: Send + 'static>(&mut self, node: NodeId, entropy: Vec<u8>, f: impl FnOnce() -> R + Send + 'static) -> R {
+        let w = self.workers.entry(node).or_insert_with(|| {
+            let (tx, rx) = std::sync::mpsc::channel::<Job>();
+            let h = std::thread::Builder::new()
+                .name(format!("node-{}", node))
+                .spawn(move || {
+                    crate::runner::set_quiet(true);
+                    while let Ok(job) = rx.recv() {
+                        job();
+                    }
+                })
+                .expect("spawn node thread");
+            (tx, Some(h))
+        });
+        let (rtx, rrx) = std::sync::mpsc::channel();
+        let job: Job = Box::new(move || {
+            let buf = entropy;
+            let mut pos = 0usize;
+            let mut tail = crate::choices::Xoshiro::new(buf.iter().fold(0u64, |a, b| a.wrapping_mul(131).wrapping_add(*b as u64)));
+            let _ = getrandom::sim::install(Box::new(move |out: &mut [u8]| {
+                for b in out.iter_mut() {
+                    if pos < buf.len() {
+                        *b = buf[pos];
+                        pos += 1;
+                    } else {
+                        *b = tail.next() as u8;
+                    }
+                }
+            }));
+            let r = std::panic::catch_unwind(std::panic::AssertUnwindSafe(f));
+            let _ = getrandom::sim::uninstall();
+            let loc = if r.is_err() { crate::runner::take_last_panic() } else { None };
+            let _ = rtx.send((r, loc));
+        });
+        w.0.send(job).expect("node thread alive");
+        let (r, loc) = rrx.recv().expect("node thread answers");
+        match r {
+            Ok(v) => v,
+            Err(_) => {
+                // re-raise on the simulator thread with the original location preserved in the message
+                let (l, m) = loc.unwrap_or_else(|| ("?".into(), "?".into()));
+                crate::runner::note_foreign_panic(l, m);
+                std::panic::resume_unwind(Box::new("panic on a node thread"));
+            }
+        }
+    }
+}
+
+impl Drop for NodeThreads {
+    fn drop(&mut self) {
+        let ws = std::mem::take(&mut self.workers);
+        for (_, (tx, h)) in ws {
+            drop(tx);
+            if let Some(h) = h {
+                let _ = h.join();
+            }
+        }
+    }
+}
